@@ -10,6 +10,7 @@
   Core Lean only.
 -/
 import Koreo.Compare
+import Koreo.CompareWF
 import Koreo.MergePatch
 namespace Koreo.R45
 open Koreo Koreo.JVal Koreo.Compare
@@ -22,7 +23,7 @@ structure Codec where
   dumps : JVal → String
   loads : String → Option JVal
 
-def Codec.reads (c : Codec) (v : JVal) : Prop := c.loads (c.dumps v) = some v
+def Codec.reads (c : Codec) (v : JVal) : Prop := c.dumps v ≠ "" ∧ c.loads (c.dumps v) = some v
 
 /-- `_extract_last_applied`; `none` = it raised (`.get` on a non-map, `json.loads` rejected the text) -/
 def extractLastApplied (c : Codec) (live : JVal) : Option JVal :=
@@ -65,6 +66,27 @@ def prepareForApi (c : Codec) (t : JVal) : Option JVal :=
   match strip t with
   | .obj kvs => (setAnnotation lastAppliedAnnotation (.str (c.dumps (.obj kvs))) kvs).map .obj
   | _ => none
+
+/-- a key of a target map that is compared plainly (no keyed / set / last-applied directive on it) -/
+def plainKey (tkvs : List (String × JVal)) (k : String) : Bool :=
+  let d := specDirs tkvs
+  (fieldsFor k d.asMap).isNone && !d.asSet.contains k && !d.lastApplied.contains k
+
+/-- the target leaves koreo's own annotation alone: `metadata` / `metadata.annotations`, where the
+    target specifies them, are plainly compared maps that do not set the last-applied annotation
+    (the forced overlay always makes `metadata` a map) -/
+def annFree (t : JVal) : Bool :=
+  match t with
+  | .obj tkvs =>
+    match lookup "metadata" tkvs with
+    | none => true
+    | some (.obj tm) => plainKey tkvs "metadata" &&
+      (match lookup "annotations" tm with
+       | none => true
+       | some (.obj ta) => plainKey tm "annotations" && (lookup lastAppliedAnnotation ta).isNone
+       | some _ => false)
+    | some _ => false
+  | _ => false
 
 /-- `converted_resource["metadata"]["ownerReferences"] = owner_refs` -/
 def setOwnerRefs (refs : JVal) (t : JVal) : Option JVal :=
